@@ -42,6 +42,22 @@ CLAIMED = {
    text="ValidateOCRA and GenerateOCRA are executed from their SSA on the same symbolic suite / input / secret (field lengths 0..140 symbolic, undecodable secret as an outcome, flags per case); the submitted string is arbitrary bytes, the generated code, the generated code with one byte replaced, or of wrong length. On every path the solver proves ok <=> (generation succeeds and string == generated code), ok <=> err == nil, and generation failure => (false, err); neither call panics, including for suites with digits -1, 0, 3, 11 and unsupported hashes (digits read before validation).",
    note="Bounds: subsets {Q},{C,Q},{Q,P},{Q,S},{all} quick, all 32 thorough; digits 6 quick, {4,10} thorough. The two derivations share digest variables when their (key, message) terms are structurally identical; a semantic-but-not-structural equality would surface as an unconfirmed model (engine error), never as a pass.",
    design="DESIGN.md section 2/C06"),
+ "C10": dict(
+   text="Every exported operation of package otp reached by a harness is executed from its SSA inside a panic-catching wrapper with fully symbolic value arguments (digits and hash bytes 0..255, any uint period/skew, any counter, any time.Time representation, nil or non-nil Param, symbolic SuiteConfig fields with extreme digits, symbolic-length byte fields incl. nil, ASCII strings of bounded length); the solver decides feasibility of every runtime-panic site (index, slice bounds, division, nil dereference, negative make, failed type assertion, negative strings.Repeat count): a feasible panic path is a violation with a natively replayed model; every loop carries an unwinding assertion (bound 40 for the derivation, 600 elsewhere) whose failure is reported as a violation of the bounded-work clause. The evidence lists the exported operations reached / not reached, discovered from the SSA package on every run.",
+   note="Bounds: string arguments of the parsers and helpers 0..5 bytes, ASCII (DecodeSecret text <= 4/7 bytes quick/thorough, hex/decimal helpers <= 5); LeftPadHex widths 0..40 and 2^20; validation windows 0..2 and every refused value quick, 0..10 thorough. deriveRFC4226 and DecodeSecret are replaced by total contracts inside the window loops (each is itself checked for all arguments). Not reached here: GenerateTOTPURL/HOTPURL, ParseOTPAuthURL (C16), ParseDecimalChallengeRFC6287 (C17); excluded by the property: MustRawSuite, MustHexPadLeft, nil Suite, user-defined Suite, replaced TimeCounterFunc. Panics inside standard-library callees run from intrinsics are outside.",
+   design="DESIGN.md section 2/C10"),
+ "C11": dict(
+   text="REDUCED CLAIM (schedules are not explored): per operation (GenerateHOTP, GenerateTOTP, GenerateOCRA; two consecutive calls with independent symbolic arguments; pooled buffers pre-filled by an adversary with arbitrary content and length) the executor tracks every store and pool Get/Put and the solver decides, for every argument value: stores go only to memory allocated by the call or to a pool object the call owns; nothing is accessed after Put; no returned value shares memory with a pool, a package-level object or an argument; results and HMAC messages are independent of pool content and of the other call's arguments (syntactic check, 2-safety query when variables occur); the first result is unchanged after the second call. Schedule independence and race freedom then follow by the reduction argument in DESIGN.md (calls that write only call-private and exclusively owned memory commute).",
+   note="Not decided by this technique: actual interleavings, the Go memory model, GC emptying sync.Pool, the race detector; sync.Pool's own thread-safety and exclusivity of Get are its contract. Bounds as C05/C01 (digits {6,9} x hash {0,2} quick; OCRA subsets {Q},{all},{P,S} quick, all thorough).",
+   design="DESIGN.md section 2/C11"),
+ "C12": dict(
+   text="GenerateOCRA/ValidateOCRA are executed with all five input fields as slices of symbolic length 0..140 over 144-byte arrays (spare capacity filled with arbitrary canary bytes) marked caller-owned, plus symbolic suite configuration; Generate/Validate HOTP/TOTP with caller-owned Param structs and nil; NewRawSuite/NewSuite/ListSuites/SuiteConfigFromRaws for registered names. On every path the solver proves every byte of every backing array (including behind len) equal to its initial variable, the configuration, the Param struct, both default parameter sets and all registry entries unchanged, no write event on caller-owned or package-level objects, results sharing no memory with arguments, and the registry unaffected by scribbling on every returned value.",
+   note="Bounds: OCRA subsets {none},{Q},{C,Q,S},{all} quick, all 32 thorough; registered names 2 quick, 45 thorough. The in-place branch of append (len+n <= cap) on a caller slice is a solver-decided fork, so helpers that extend caller memory are found (checked with a seeded padBytes mutant). URL parameters: see C16.",
+   design="DESIGN.md section 2/C12"),
+ "C13": dict(
+   text="(verdict) ValidateHOTP/ValidateTOTP with symbolic digits/hash bytes, window per case or any refused value, undecodable secret as an outcome, code length d-1/d/d+1: every path returns (true,nil) or (false,non-nil) - OCRA's pair is asserted in C06. (disclosure) Generate/Validate HOTP/TOTP/OCRA through the real base32 decoder with a symbolic key: on every path returning an error, the error value (sentinel identity, or format string + argument terms of fmt.Errorf, or an offset-carrying base32 error) is independent of the key variables and of every digest variable - syntactic check, then a 2-safety solver query; natively the replay checks that the error text contains neither the secret text nor the code generation returns. (badsecret) for arbitrary undecodable ASCII text the error carries no byte of the text.",
+   note="Bounds: digits {6,11} quick / {0,1,6,8,9,10,11} thorough in disclosure; undecodable texts of 3,5 bytes quick, up to 9 thorough. The position reported by base32.CorruptInputError depends on which character is invalid, not on key material of a well-formed secret; it is allowed.",
+   design="DESIGN.md section 2/C13"),
 }
 
 NA_REASON_PENDING = "not yet built in this session: no solver-based check registered (see DESIGN.md for the planned encoding)"
